@@ -30,8 +30,11 @@ HALTON_CLASS = 9
 
 
 class TokFault(Exception):
-    def __init__(self, kind):
-        super().__init__(kind)
+    def __init__(self, kind, bare=False):
+        if bare:
+            super().__init__()          # an exception without a message (bare `assert`, `raise TimeoutError`, queue.Empty ...)
+        else:
+            super().__init__(kind)
         self.kind = kind
 
 
@@ -44,7 +47,30 @@ class TokInterrupt(KeyboardInterrupt):
 
 
 def raise_fault(kind):
-    raise (TokInterrupt(kind) if G.get("flavour") == "interrupt" else TokFault(kind))
+    fl = G.get("flavour")
+    raise (TokInterrupt(kind) if fl == "interrupt" else TokFault(kind, bare=(fl == "bare")))
+
+
+def call_with_watchdog(fn, timeout=60.0):
+    """Run fn() in a worker thread; a call that does not return (a deadlock between the calibration and the agent thread) is
+    abandoned and reported as TimeoutError instead of hanging the check."""
+    box = {}
+
+    def work():
+        try:
+            box["ret"] = fn()
+        except BaseException as e:  # noqa: BLE001
+            box["exc"] = e
+
+    t = threading.Thread(target=work, daemon=True)
+    t.start()
+    t.join(timeout)
+    if t.is_alive():
+        G["hung"] = True
+        raise TimeoutError(f"call did not return within {timeout}s (deadlock)")
+    if "exc" in box:
+        raise box["exc"]
+    return box.get("ret")
 
 
 def _tok_sample_batch(self, batch_size, search_space, existing_points, existing_losses):
@@ -218,7 +244,7 @@ def run_case(case, keep=False):
     from black_it.calibrator import Calibrator
 
     G.update(fault=tuple(case["fault"]) if case.get("fault") else None, model_calls=0, loss_calls=0,
-             flavour=case.get("fault_flavour"))
+             flavour=case.get("fault_flavour"), hung=False)
     folder = SCRATCH / f"{os.getpid()}" / f"case{case.get('idx', 0)}"
     if folder.exists():
         shutil.rmtree(folder)
@@ -263,8 +289,10 @@ def run_case(case, keep=False):
         sink = io.StringIO()
         try:
             with contextlib.redirect_stdout(sink):
+                if G.get("hung"):
+                    raise TimeoutError("skipped: an earlier call of this case never returned")
                 if op[0] == "calibrate":
-                    p, l = cal.calibrate(op[1])
+                    p, l = call_with_watchdog(lambda n=op[1]: cal.calibrate(n)) if case.get("rl") else cal.calibrate(op[1])
                     returned = [(int(a[0]), float(b)) for a, b in zip(p, l)]
                 elif op[0] == "checkpoint":
                     cal.create_checkpoint(str(folder))
